@@ -14,18 +14,30 @@ IcaoWant(text) ==
       a == IcaoInt(f)
   IN  a
 
-V_icao(e) ==
+\* canon: address -> the result text first seen for it (relational half of C02: one key per
+\* transponder whatever the format and the letter case).  Only events flagged rel=1 take part.
+V_icao_rel(e, canon) ==
   LET a == IcaoWant(e.text)
   IN  IF a = -1 THEN (IF IsNone(e.res) THEN "ok" ELSE "icao_none_for_other_df")
       ELSE IF e.res.t # "s" THEN "icao_not_string"
-      ELSE IF e.res.v = HexText(a, 6) THEN "ok"
-      ELSE IF Len(e.res.v) = 6 /\ IsHexText(e.res.v)
-              /\ BytesOfText(e.res.v) = BytesOfText(HexText(a, 6)) THEN "icao_not_canonical_case"
-      ELSE "icao_wrong_address"
+      ELSE IF ~(Len(e.res.v) = 6 /\ IsHexText(e.res.v)
+                /\ BytesOfText(e.res.v) = BytesOfText(HexText(a, 6))) THEN "icao_wrong_address"
+      ELSE IF e.rel = 1 /\ a \in DOMAIN canon /\ canon[a] # e.res.v THEN "icao_two_keys_for_one_address"
+      ELSE IF e.res.v # HexText(a, 6) THEN "drift:icao_not_upper_case"
+      ELSE IF "want" \in DOMAIN e /\ e.want # HexText(a, 6) THEN "oracle:recorded_address_column_differs"
+      ELSE "ok"
+
+V_icao(e) == V_icao_rel(e, <<>>)
+
+CanonNext(e, canon) ==
+  LET a == IcaoWant(e.text)
+  IN  IF a # -1 /\ e.rel = 1 /\ e.res.t = "s" /\ a \notin DOMAIN canon
+      THEN [x \in DOMAIN canon \cup {a} |-> IF x = a THEN e.res.v ELSE canon[x]]
+      ELSE canon
 
 \* allcall.icao(): DF11 only
 V_allcall_icao(e) ==
   LET f == BytesOfText(e.text)
   IN  IF DF(f) # 11 THEN (IF IsErr(e.res) THEN "ok" ELSE "allcall_icao_guard")
-      ELSE V_icao(e)
+      ELSE V_icao_rel(e, <<>>)
 =============================================================================
